@@ -468,6 +468,26 @@ func (c01) Run(ctx *Ctx, ci interface{}) (o Outcome) {
 	check := func(modelled bool) bool {
 		for _, lb := range left {
 			now, _ := observe(lb.obj)
+			if lb.by == "sample" {
+				// a sample is a new container over the rows it drew: residues written through it may show in the
+				// original (Sample hands the rows over, DESIGN.md 6.2), its names, its number of rows, their order and
+				// the agreement of its access paths may not change
+				if len(now) != len(lb.rows) {
+					fail("original-changed-through-copy", "the container that sample was called on had %d rows and has %d after its result was operated on\nit was:\n%s", len(lb.rows), len(now), fmtRows(lb.rows))
+					return false
+				}
+				for i := range now {
+					if now[i].Name != lb.rows[i].Name || len(now[i].Seq) != len(lb.rows[i].Seq) {
+						fail("original-changed-through-copy", "the container that sample was called on changed when its result was operated on: row %d was %v and is %v\nit was:\n%s", i, lb.rows[i], now[i], fmtRows(lb.rows))
+						return false
+					}
+				}
+				if d := accessPaths(lb.obj, now); d != "" {
+					fail("original-changed-through-copy", "the container that sample was called on no longer answers the same through all its access paths after its result was operated on: %s\nit was:\n%s", d, fmtRows(lb.rows))
+					return false
+				}
+				continue
+			}
 			if d := rowsEqual(now, lb.rows); d != "" {
 				fail("original-changed-through-copy", "the object that %s was called on changed when its result was operated on: %s\nit was:\n%s", lb.by, d, fmtRows(lb.rows))
 				return false
@@ -546,7 +566,7 @@ func (c01) Run(ctx *Ctx, ci interface{}) (o Outcome) {
 		contBefore := cont
 		var rowsBefore []HRow
 		switch op.Kind {
-		case "clone", "sub-align", "select-sites", "transpose", "rand-sub-align":
+		case "clone", "sub-align", "select-sites", "transpose", "rand-sub-align", "sample":
 			rowsBefore, _ = observe(cont)
 		}
 		if op.Kind == "translate" && op.N == -1 && isAl && m.aligned && m.length()%3 != 2 {
